@@ -137,6 +137,8 @@ CURATED = [
     ('escaped-closure-calls-sibling', 'fn helper(v) {\n    return v - 1\n}\nfn mk() {\n    fn helper(v) {\n        return v + 1\n    }\n    return fn (v) {\n        return helper(v)\n    }\n}\nprint(mk()(@h1@))\ng := null\n{\n    fn down(n) {\n        if n == 0 {\n            return 0\n        }\n        return 1 + down(n - 1)\n    }\n    g = down\n}\nprint(g(3))\nfs := []\nfor [i, v] in [@h2@, 5] {\n    fn addv(w) {\n        return v + w\n    }\n    fs += [fn (w) {\n        return addv(w)\n    }]\n}\nprint(fs[0](1))\nprint(fs[1](1))\n'),
     ('scope-after-early-exit', 'n := @h1@\ni := 0\nwhile i < 3 {\n    i += 1\n    {\n        n := 100 + i\n        if i == 2 {\n            break\n        }\n        if i == 1 {\n            continue\n        }\n    }\n}\nprint(n)\nn = n + 1\nprint(n)\nfor [k, v] in [7, 8] {\n    m := v\n    if k == 0 {\n        continue\n    }\n    break\n}\nm := @h2@\nprint(m)\nfn f() {\n    for [k, v] in [1] {\n        q := v\n        return q\n    }\n}\nprint(f())\nq := @h3@\nprint(q)\n'),
     ('dup-params-in-literals', 'if @b1@ {\n    h := fn (a, a) {\n        return a\n    }\n    print(h(1, 2))\n}\nif @b3@ {\n    o := {"m": fn (p, [p]) {\n        return p\n    }}\n    print(o.m(1, [2]))\n}\nfn ok(_, b, _) {\n    return b\n}\nprint(ok(1, @h1@, 3))\nprint((fn (_, _) {\n    return 4\n})(1, 2))\n'),
+    ('shorthand-sees-outer', 'label := @h1@\nfn tagged(x) {\n    if true {\n        for [i, v] in [1] {\n            return {label, x, v}\n        }\n    }\n}\nprint(tagged(@h2@))\n{\n    inner := 3\n    {\n        print({label, inner})\n    }\n}\nmk := fn () {\n    return fn () {\n        return {label}\n    }\n}\nprint(mk()())\nif @b1@ {\n    print({nope})\n}\n'),
+    ('pattern-reads-earlier-name', 'xs := [0, 0, 0]\n[i, xs[i]] := [1, 9]\nprint(i)\nprint(xs)\n{"first": k, k: v} := {"first": "second", "second": @h1@}\nprint(k)\nprint(v)\nfn f(n, [ys[n]]) {\n    return n\n}\nys := [5, 6]\nprint(f(1, [@h2@]))\nprint(ys)\nzs := [0]\nfor [j, zs[j]] in [7] {\n    print(j)\n}\nprint(zs)\n'),
     ('paren-names', 'if @b1@ {\n    print(  (w))\n}\nif @b2@ {\n    (  w) = 1\n}\nif @b3@ {\n    ( w) += 1\n}\nif @b4@ {\n    z := {(  w)}\n}\n( w) := @h1@\nprint(w)\nif @b5@ {\n    (   w) := 2\n}\nprint((w) + 1)\n'),
     ('use-before-decl', 'if @b1@ {\n    print(w)\n}\nif @b2@ {\n    w = 1\n}\nif @b3@ {\n    w += 1\n}\nw := @h1@\nprint(w)\n'),
     ('underscore', '_ := @h1@\n_ := @h2@\n[_, _, k] := [1, 2, @h3@]\nprint(k)\nfn f(_, _) {\n    return 1\n}\nprint(f(1, 2))\nfor [_, _] in [1] {\n    print(3)\n}\nif @b1@ {\n    print(_)\n}\n_ = 5\nprint(4)\n'),
